@@ -9,19 +9,32 @@ SPEC = {
     "correspondences": [],
     "oracles": [
         {"name": "uidv-rel", "quick_args": ["-n", "300"], "thorough_args": ["-n", "6000"], "timeout": 1500},
-        # (lead) wire-level history oracle with restarts goes here
+        # wire-level history oracle (harness/o_uids.go): whole-server histories over 4 mailbox names, 1-2 sessions +
+        # an observer connection, with restarts; the observation log (APPENDUID, COPYUID, UID+marker listings,
+        # UIDNEXT, UIDVALIDITY) is judged by Lean (judge-c04-uids, Spec/UidHistory.lean).  Directed replays run
+        # first: uidv-restart = DESIGN #12 (label cause=uidvalidity-regress-after-restart), copyuid-order =
+        # COPYUID pairing for a non-ascending message set (cause=copyuid-pairing; fixed in /repo by 071c9b5, kept as
+        # regression test), copyuid-stale-move = MOVE of a message
+        # another session has expunged (cause=copyuid-length-mismatch), rename-onto-used = RENAME onto a
+        # name that carried a greater UIDVALIDITY before (cause=uidvalidity-regress-rename-onto-used-name).
+        {"name": "c04uids",
+         "quick_args": ["-n", "60", "-par", "16", "-directed", "uidv-restart,copyuid-order,copyuid-stale-move,rename-onto-used"],
+         "thorough_args": ["-n", "2000", "-par", "24", "-directed", "uidv-restart,copyuid-order,copyuid-stale-move,rename-onto-used"],
+         "timeout": 2400},
     ],
     "trusted_base": [
         "Lean 4.33.0 kernel; axioms limited to propext, Classical.choice, Quot.sound (audited per theorem)",
         "hand-written model GluonModel/Model/UidValidity.lean of imap.EpochUIDValidityGenerator.Generate (clock reading = input, lastUID = state, restart = fresh generator), tied to the real generator by the real-time relational oracle uidv-rel: every result must equal the model's generate(now,last) for some clock reading now between the readings taken before and after the call (differential testing, not proof)",
         "hand-written model GluonModel/Model/UidSeq.lean of SQLite AUTOINCREMENT UID assignment (model only at this level; its tie to the real database is C08's component correspondence and the wire oracle)",
         "float->uint64 conversion of a negative elapsed time is modelled as on amd64 (two's complement); exercised by the oracle with epochs in the future",
+        "wire oracle c04uids: the Go harness (o_uids.go) that drives the server, parses IMAP responses into the observation log and schedules one step at a time (connector flushed + every session caught up after each step); the verdict on the log is computed by the Lean spec GluonModel/Spec/UidHistory.lean (hand-written, executable; it reuses UidSeq.applyOps/uidNext and UidV.strictlyIncreasing), not by Go",
     ],
     "assumptions": [
         "uidv_mono_restart_partial / recreate_greater need the named hypothesis ClockAhead (clockAtRestart > lastIssued): lastUID is not persisted; theorem uidv_restart_witness and the oracle's `nontrivial-reissue-after-restart` cases show the real generator re-issuing a smaller value after burst+restart",
         "concurrent Generate calls are modelled by their linearisation at the successful CAS (argument in Model/UidValidity.lean, not formalised); the oracle runs concurrent calls and requires a sequential explanation of the sorted results",
         "a wall clock that steps backwards is covered by the theorems (clock readings are arbitrary) but cannot be produced by the real-time oracle",
-        "uid_fresh / uidnext_gt_all / uidnext_mono speak about the AUTOINCREMENT model; that every announced UID stems from a committed transaction (announce-after-commit) and the APPENDUID/COPYUID values are checked at wire level by the lead's history oracle",
+        "uid_fresh / uidnext_gt_all / uidnext_mono speak about the AUTOINCREMENT model; that every announced UID stems from a committed transaction (announce-after-commit) and the APPENDUID/COPYUID values are checked at wire level by the oracle c04uids, which also checks the model's predictions on the real server (n additions get exactly the UIDs UidSeq.applyOps hands out, UIDNEXT = UidSeq.uidNext, a transaction rolled back after it ran leaves no trace) - sampled histories, not proof",
+        "c04uids: generated histories wait for the generator clock to pass every UIDVALIDITY seen so far before the first creation after a restart (step X CLOCKWAIT = the named hypothesis ClockAhead), let a session catch up (NOOP) before it copies or moves, and never rename onto a name that carried a greater UIDVALIDITY, so that they stay quiet about the directed findings and are judged to their end; restarts are clean closes (optionally with client connections cut) and reopen on the same directories; process kills are C07's oracle",
     ],
-    "explanation": "Lean theorems: Generate results strictly increase within a process for every clock sequence (incl. backwards clocks and the uint32 ceiling, where it fails instead of wrapping); across restarts only under ClockAhead, with a decide-checked witness that the hypothesis is needed; AUTOINCREMENT UIDs are fresh and UIDNEXT monotone over all histories of committed/rolled-back transactions. The real EpochUIDValidityGenerator is run in real time (bursts, restarts, second boundaries, concurrent calls, epochs at 0 / 2^31 / 2^32 / in the future) and judged against the model by the Lean judge.",
+    "explanation": "Lean theorems: Generate results strictly increase within a process for every clock sequence (incl. backwards clocks and the uint32 ceiling, where it fails instead of wrapping); across restarts only under ClockAhead, with a decide-checked witness that the hypothesis is needed; AUTOINCREMENT UIDs are fresh and UIDNEXT monotone over all histories of committed/rolled-back transactions. The real EpochUIDValidityGenerator is run in real time (bursts, restarts, second boundaries, concurrent calls, epochs at 0 / 2^31 / 2^32 / in the future) and judged against the model by the Lean judge. At wire level whole-server histories (APPEND, COPY/MOVE, expunge of the highest UID or of everything followed by additions, failing and rolled-back commands, connector-driven additions, DELETE+CREATE, RENAME, UIDVALIDITY bump, restarts) are logged and a Lean judge checks that (name, uidvalidity, uid) -> message is a function, UIDs are fresh, UIDNEXT is above every UID assigned and monotone, APPENDUID/COPYUID UIDs hold the announced messages, and UIDVALIDITY per name strictly increases.",
 }
